@@ -144,7 +144,7 @@ func TestVfTwin(t *testing.T) {
 				start, hs, body = pr.g.requestParts(&rc)
 			} else {
 				start, hs, body = pr.g.responseParts(&rc)
-				srcIP, srcPort = pr.g.ip("10.0.4.1"), 5060
+				srcIP, srcPort = pr.respSrc(k + rep)
 			}
 			rawA := vfRender(start, hs, body)
 			rawB := vfRender(start, pr.g.twin(hs), body)
